@@ -111,6 +111,14 @@ structure SeqState where
   nthreads : Nat
   pending : List (Nat × Op) := []    -- background operations that are blocked (thread, operation)
 
+/-- drop the local spans above the innermost scope of thread `t`, newest first (fuel: the number of guards) -/
+def closeLocals (s : Sys) (t : Nat) : Nat → Sys
+  | 0 => s
+  | n + 1 =>
+    match (s.th t).guards with
+    | .localSpan _ :: _ => closeLocals (exec s t .close).1 t n
+    | _ => s
+
 /-- would this thread's next use of its command channel block?  (its first use, while a drain holds the
     registry lock) -/
 def wouldBlock (sys : Sys) (t : Nat) : Bool := sys.regLocked && !(sys.th t).registered
@@ -141,6 +149,11 @@ def seqStep (st : SeqState) (line : String) : SeqState × String :=
         ({ st with sys := sys }, "cl 1")
       else (st, "cl 0")
     | _, _, _ => (st, "bad-op parse")
+  -- a caught panic unwinds through the local spans above the innermost scope: they are dropped newest first, as by `close`
+  | [t, "unwindLocals"] =>
+    match t.toNat? with
+    | some t => ({ st with sys := closeLocals st.sys t ((st.sys.th t).guards.length) }, "ok")
+    | none => (st, "bad-op parse")
   -- the span name is a user value whose conversion enters and drops a `LocalSpan` first (user code run by the call)
   | [t, "localEnterRe", n] =>
     match t.toNat?, strOfHex n with
@@ -196,6 +209,7 @@ def offStep (line : String) : String :=
   | [_, "sleep", _] => "ok"
   | [_, "flushBegin"] => "ok"
   | [_, "evNew", _, _, _] => "ok"
+  | [_, "unwindLocals"] => "ok"
   | [_, "localEnterRe", _] => "ok"
   | [_, "childLocalRe", _, _] => "ok"
   | [_, "evToParent", _, _, _] => "cl 0"
